@@ -158,12 +158,50 @@ def k5_schedules(run, rng, ncases, norders):
     run.sample({"schedule_case": case, "variants": [str(k) for k in results]})
 
 
+def k5_scans(run, rng, ncases, norders):
+    """grouped scans: sync / threaded / random topological orders (with re-execution) vs the eager scan"""
+    import dask.array as da
+    import numpy as np
+
+    import flox
+
+    for _ in range(ncases):
+        func = rng.choice(["nancumsum", "nancumsum", "ffill", "bfill"])
+        n = rng.randint(3, 14)
+        vals = G.rand_vals(rng, n, alphabet=G.ALPHA_FINITE + ["nan"], p_special=0.2)
+        labels = G.rand_labels(rng, n, rng.randint(1, 3))
+        chunks = G.random_composition(rng, n)
+        case = {"scan": func, "vals": vals, "labels": labels, "chunks": [list(chunks)]}
+        v = np.array([I.unf(x) for x in vals], dtype=float)
+        lab = np.array(labels)
+        results = {}
+        with warnings.catch_warnings():
+            warnings.simplefilter("ignore")
+            try:
+                eager = np.asarray(flox.groupby_scan(v, lab, func=func))
+                r = flox.groupby_scan(da.from_array(v, chunks=(chunks,)), lab, func=func)
+            except (ValueError, NotImplementedError):
+                continue
+            results["sync"] = np.asarray(r.compute(scheduler="sync"))
+            results["threads"] = np.asarray(r.compute(scheduler="threads"))
+            for j in range(norders):
+                rec = []
+                results[f"random{j}"] = np.asarray(r.compute(scheduler=GR.make_random_get(rng.randrange(10 ** 9), rec, reexec=0.2)))
+        run.count(C.json.dumps(case, sort_keys=True), len(chunks) >= 3)
+        bad = [(k, a.tolist()) for k, a in results.items() if not np.allclose(a, eager, equal_nan=True, rtol=1e-12, atol=0)]
+        if bad:
+            run.violation({"property": "C03", "kind": "grouped scan depends on scheduler / task order / re-execution",
+                           "case": case, "eager": eager.tolist(), "differing": [(str(k), a) for k, a in bad[:4]]}, tag="scan")
+    run.sample({"scan_schedule_case": case})
+
+
 def run(run: C.Run):
     rng = random.Random(run.seed)
     proofs_ok = P.front(run, translators=("registry",), extra_targets=("Proofs/C03Proofs.vo",))
     thorough = run.tier == "thorough"
     k4_trees(run, 40 if thorough else 18)
     k5_schedules(run, rng, 300 if thorough else 50, 6 if thorough else 2)
+    k5_scans(run, rng, 300 if thorough else 60, 6 if thorough else 3)
     if (not proofs_ok or any(not o[1] for o in run.obligations)) and not run.violations:
         run.violation({"property": "C03", "kind": "proof obligation / correspondence no longer checks",
                        "failed": P.failed_obligations(run)}, nofail=True, tag="obligation")
@@ -176,7 +214,7 @@ def run(run: C.Run):
         "(map-reduce) and flox's own _tree_reduce (cohorts), the tree actually evaluated (recorded by wrapping _simple_combine; "
         "block i carries 2**i) must have leaves 0..n-1 in order, arity <= split_every, and equal the Coq build_tree shape; "
         "K5: random lazy reductions computed under several split_every, sync, threaded and random topological orders with "
-        "re-execution of finished tasks, all compared with the eager result; non-trivial = tree deeper than one level / >=3 blocks")
+        "re-execution of finished tasks, all compared with the eager result; the same for grouped scans (nancumsum/ffill/bfill); non-trivial = tree deeper than one level / >=3 blocks")
 
 
 def replay(run: C.Run, path):
